@@ -6,14 +6,19 @@
    r, p, b, cur, ww, wb are [g, d] (generation, digest rank; [0,0] = none, [-1,-1] = not attributable), ch and lv
    lists of them, mem / tree lists of rows [g, d, parent g, parent d, deleted 0|1]:  mem is the tree the call
    left in memory (returned document), tree/cur/fl the STORED AND RELOADED document, ww/wbr/wcf the value of
-   winningRevision on the reloaded tree, wb the revision whose body is served as the document's body. *)
+   winningRevision on the reloaded tree, wb the revision whose body is served as the document's body.
+   Every recorded behaviour (Reset line .. next Reset) is validated as a TLC behaviour of its own: the initial states
+   are the Reset lines, so a counterexample is as short as the behaviour, and with -continue one run lists every
+   violating behaviour.  Acceptance: register 2 collects the Reset lines of the behaviours consumed to their end;
+   the POSTCONDITION prints the others (<<"STALL", {...}>>). *)
 EXTENDS RevTree, TraceLib
 
 TwoReps == {1, 2}
 NoChains == {}
 TraceCfgs == {[lvl |-> "tree", ac |-> TRUE, lim |-> 0, gv |-> <<1>>, n |-> 1]}
-VARIABLE l
-tvars == <<vars, l>>
+VARIABLES l, s0           \* next line to consume; Reset line of the behaviour being validated
+tvars == <<vars, l, s0>>
+Starts == {k \in 1..TraceLen : Trace[k].a = "Reset"}
 
 R2(x) == Mk(x[1], x[2])
 RSeq(x) == [k \in 1..Len(x) |-> R2(x[k])]
@@ -25,7 +30,6 @@ TreeOf(rows) ==
 (* a projected tree lists every revision once (two keys of the real map can never share an id) *)
 RowsOK(rows) == \A j, k \in 1..Len(rows) : (j # k) => R2(rows[j]) # R2(rows[k])
 
-Ev(a) == l <= TraceLen /\ Trace[l].a = a /\ l' = l + 1
 T == Trace[l]
 Logged ==
   LET i == T.i IN
@@ -36,18 +40,15 @@ Logged ==
   /\ win'   = [win   EXCEPT ![i] = [w |-> R2(T.ww), br |-> T.wbr, cf |-> T.wcf]]
   /\ wb'    = [wb    EXCEPT ![i] = R2(T.wb)]
 
-TInit == Init /\ l = 1
-
-Reset ==
-  /\ Ev("Reset")
-  /\ tree' = [i \in Reps |-> EmptyTree] /\ mem' = [i \in Reps |-> EmptyTree]
-  /\ cur' = [i \in Reps |-> Nil] /\ flags' = [i \in Reps |-> NoFlags] /\ win' = [i \in Reps |-> NoWin]
-  /\ wb' = [i \in Reps |-> Nil]
-  /\ cfg' = [lvl |-> T.lvl, ac |-> T.ac, lim |-> T.lim, gv |-> T.gv, n |-> T.nrep]
-  /\ btok' = [r \in Rev |-> Unk] /\ upar' = [r \in Rev |-> Unk] /\ udel' = [r \in Rev |-> "?"]
-  /\ cons' = TRUE /\ pruned' = FALSE /\ acc' = [i \in Reps |-> {}] /\ fed' = [i \in Reps |-> <<>>]
-  /\ pre' = NoPre /\ hist' = <<>>
-End == Ev("End") /\ UNCHANGED vars
+TInit == \E s \in Starts :
+  /\ s0 = s /\ l = s + 1
+  /\ tree = [i \in Reps |-> EmptyTree] /\ mem = [i \in Reps |-> EmptyTree]
+  /\ cur = [i \in Reps |-> Nil] /\ flags = [i \in Reps |-> NoFlags] /\ win = [i \in Reps |-> NoWin]
+  /\ wb = [i \in Reps |-> Nil]
+  /\ cfg = [lvl |-> Trace[s].lvl, ac |-> Trace[s].ac, lim |-> Trace[s].lim, gv |-> Trace[s].gv, n |-> Trace[s].nrep]
+  /\ btok = [r \in Rev |-> Unk] /\ upar = [r \in Rev |-> Unk] /\ udel = [r \in Rev |-> "?"]
+  /\ cons = TRUE /\ pruned = FALSE /\ acc = [i \in Reps |-> {}] /\ fed = [i \in Reps |-> <<>>]
+  /\ pre = NoPre /\ hist = <<>>
 
 (* the inputs of the logged call, as the spec's actions take them *)
 Full(i) == IF T.a = "Hist" THEN RSeq(T.ch)
@@ -66,8 +67,8 @@ Shape == /\ T.i \in Reps /\ RowsOK(T.tree) /\ RowsOK(T.mem)
 
 (* pass P: implementation variables := logged real state; ghosts advance from the logged inputs *)
 PStep == /\ l <= TraceLen /\ T.a \in {"Add", "Hist", "Prune", "Child"} /\ l' = l + 1
-         /\ Shape /\ Logged /\ GhostLogged(T.i) /\ UNCHANGED hist
-PNext == Reset \/ End \/ PStep
+         /\ Shape /\ Logged /\ GhostLogged(T.i) /\ UNCHANGED <<hist, s0>>
+PNext == PStep
 PSpec == TInit /\ [][PNext]_tvars
 
 (* pass C: each logged step is an instance of the corresponding action, from the previous REAL state *)
@@ -87,15 +88,17 @@ OutcomeLogged(i) ==
     [] T.a = "Child" -> /\ T.ok = (PutOutcome(i, R2(T.p), T.del) = "ok")
                         /\ T.ok => (R2(T.r).g = PutParent(i, R2(T.p)).g + 1 /\ R2(T.r) \notin DOMAIN tree[i])
 CStep == /\ l <= TraceLen /\ T.a \in {"Add", "Hist", "Prune", "Child"} /\ l' = l + 1
-         /\ Shape /\ OutcomeLogged(T.i) /\ ImplLogged(T.i) /\ Logged /\ GhostLogged(T.i) /\ UNCHANGED hist
-CNext == Reset \/ End \/ CStep
+         /\ Shape /\ OutcomeLogged(T.i) /\ ImplLogged(T.i) /\ Logged /\ GhostLogged(T.i) /\ UNCHANGED <<hist, s0>>
+CNext == CStep
 CSpec == TInit /\ [][CNext]_tvars
 
-Progress == Mark(l)
-Accept == PrintHWM
+AtEnd(k) == k > TraceLen \/ Trace[k].a \in {"Reset", "End"}
+ASSUME TLCSet(2, {})
+Progress == Mark(l) /\ (AtEnd(l) => TLCSet(2, TLCGet(2) \cup {s0}))
+Accept == PrintHWM /\ PrintT(<<"STALL", Starts \ TLCGet(2)>>)
 
 (* auxiliary, pass C: the real GetLeaves and rev-id derivation agree with the spec on the line just consumed *)
-LeavesAgree == (l > 1 /\ Trace[l - 1].a \in {"Add", "Hist", "Prune", "Child"}) =>
+LeavesAgree == (l > s0 + 1 /\ Trace[l - 1].a \in {"Add", "Hist", "Prune", "Child"}) =>
   RSet(Trace[l - 1].lv) = Leaves(tree[Trace[l - 1].i]) /\ Len(Trace[l - 1].lv) = Cardinality(Leaves(tree[Trace[l - 1].i]))
-RevIdDerivation == (l > 1 /\ Trace[l - 1].a = "Child") => Trace[l - 1].idok
+RevIdDerivation == (l > s0 + 1 /\ Trace[l - 1].a = "Child") => Trace[l - 1].idok
 =============================================================================
